@@ -26,15 +26,24 @@ G13_boundedByT(e) == (e.stall /\ e.T > 0) => (e.res = "err" /\ e.elapsed <= e.T 
 \* (whether or not an overall timeout is set as well)
 G13_readTimeoutAlone(e) == (e.stall /\ e.mode = "silent" /\ e.readSide /\ e.phase # "hops") => (e.res = "err" /\ e.elapsed <= e.R + Margin)
 \* a response that completed before the deadline is never reported as timed out, whatever is read afterwards
-G13_noSpuriousTimeout(e) == (~e.stall) => (e.res = "ok" /\ e.postEofTimeouts = 0)
+G13_noSpuriousTimeout(e) == (~e.stall /\ ~e.rst) => (e.res = "ok" /\ e.postEofTimeouts = 0)
+\* (C19) a length-delimited body whose second half arrives after a pause longer than the read timeout: the caller
+\* that reads again after the timed-out read gets every octet
+G19_resumesAfterReadTimeout(e) == e.phase = "resume" => (e.res = "ok" /\ e.delivered = 20 /\ e.eofClean)
+\* (C02) a connection reset in mid-body is an error under every framing, never a clean end of body
+G02_resetNeverComplete(e) == e.rst => (e.res = "err" /\ ~e.eofClean)
 \* a body cut by the deadline is never reported as complete
 G13_cutNeverComplete(e) == (e.stall /\ e.bodyPhase) => ~e.eofClean
 \* dropping the response releases every thread and socket the request created
 G13_released(e) == e.checkedRelease => (e.threadsLeft = 0 /\ e.fdsLeft = 0)
 
-TGuards == {"G13_boundedByT", "G13_readTimeoutAlone", "G13_noSpuriousTimeout", "G13_cutNeverComplete", "G13_released"}
+TGuards == {"G13_boundedByT", "G13_readTimeoutAlone", "G13_noSpuriousTimeout", "G13_cutNeverComplete", "G13_released",
+            "G19_resumesAfterReadTimeout", "G02_resetNeverComplete"}
+TProp(g) == IF g = "G19_resumesAfterReadTimeout" THEN "C19" ELSE IF g = "G02_resetNeverComplete" THEN "C02" ELSE "C13"
 TGuard(g, e) == CASE g = "G13_boundedByT" -> G13_boundedByT(e) [] g = "G13_readTimeoutAlone" -> G13_readTimeoutAlone(e)
                   [] g = "G13_noSpuriousTimeout" -> G13_noSpuriousTimeout(e) [] g = "G13_cutNeverComplete" -> G13_cutNeverComplete(e)
                   [] g = "G13_released" -> G13_released(e)
+                  [] g = "G19_resumesAfterReadTimeout" -> G19_resumesAfterReadTimeout(e)
+                  [] g = "G02_resetNeverComplete" -> G02_resetNeverComplete(e)
 TViolations(e) == {g \in TGuards : ~TGuard(g, e)}
 =============================================================================
